@@ -115,7 +115,8 @@ TraceNext ==
   /\ bad = "none"
   /\ l <= Len(Events)
   /\ LET v == Verdict(Ev)
-         c == IF v.c # "" THEN v.c
+         c == IF Ev.raised # "" THEN "conf_call_raised"
+              ELSE IF v.c # "" THEN v.c
               ELSE IF v.DB.nextid # Ev.obs.nextid THEN "conf_autoincrement"
               ELSE IF ~DBOK(v.DB) THEN "Inv_DBOK" ELSE ""
      IN IF c = ""
